@@ -393,14 +393,23 @@ def run_one(facts):
                                          "the reservation helper is not called with the caller's own (self, additional): A15 cannot relate n to the request")
         wf_ = MODE[0] != "amortised"
         verdicts = judge(facts, b0, b0.id, want_false=wf_, ctx_false=ctxs.get("try_reclaim", ()), ctx_alloc=ctxs.get("reserve", ()) if wf_ else ())
-        if any(not v[1] for v in verdicts):
-            # before reporting: the same function with its crate-local helpers inlined (a decision moved into a classifier fn)
+        def n_sites_of(vs):
+            for (k, ok, t, e) in vs:
+                if "|allocation sites" in k and t[:1].isdigit():
+                    return int(t.split()[0])
+            return 0
+        if any(not v[1] for v in verdicts) or n_sites_of(verdicts) < (1 if not wf_ else 2):
+            # before reporting: the same function with its crate-local helpers inlined (a decision moved into a classifier fn, the
+            # allocating tails moved into `grow_unshared_vec` / `move_to_fresh_vec`)
             from .inline import views
             for ib in views(facts, b0, keep_names=("rebuild_vec", "offset_from", "vptr", "release_shared", "is_unique", "get_vec_pos", "set_vec_pos", "kind")):
                 alt = judge(facts, ib, b0.id, want_false=wf_, ctx_false=ctxs.get("try_reclaim", ()), ctx_alloc=ctxs.get("reserve", ()) if wf_ else ())
                 if all(v[1] for v in alt):
                     verdicts = [(k, ok, t + " (with helpers inlined)", e) for (k, ok, t, e) in alt]
                     break
+                if n_sites_of(verdicts) < (1 if not wf_ else 2) and n_sites_of(alt) > n_sites_of(verdicts):
+                    # the function as written no longer contains the allocations: what the view says is the verdict
+                    verdicts = [(k, ok, t + " (with helpers inlined)", e) for (k, ok, t, e) in alt]
     else:
         verdicts = []
         roots = reserve_roots(facts)
